@@ -12,6 +12,8 @@ correspond(): operation scripts on real sims (generated configurations without g
               with an uninterrupted reference run, exactly.
 search():     the same differential on the real code only (no model) with pause points drawn from all function
               boundaries and every restore mode, plus the re-run / re-finalise guards (results must not change).
+zoo:          every entry of harness/zoo.py on every run: one operation script in correspond() (control state vs the model, end
+              state vs the reference) and one pause / restore / twin / stop-time / resume variant in search() (`oracle_zoo`).
 """
 import os, pickle, tempfile, warnings
 from fractions import Fraction
@@ -27,7 +29,7 @@ RULE = ('generated sim configurations (impl.gen_sim_config without global-genera
         'sometimes a disease on half/double the sim timestep) x operation scripts of 3-9 operations drawn from run(until) / '
         'run_one_step / bursts of loop.run_one_step / restore in {none, deepcopy, pickle, save+load} / twin fork / post-completion '
         'operations / rare manual finalize. distinct = distinct (configuration, script); non-trivial = at least one pause strictly '
-        'inside the plan and one real restore')
+        'inside the plan and one real restore; plus every entry of the fixed scenario zoo (harness/zoo.py, 46 configurations) x 1 script')
 TRUSTED = ['CPython copy/pickle and sciris dcp/save/load are exercised, not modelled: that a restored object graph is observationally '
            'equal is established by exact comparison of control state after every operation and of all results / agent states / '
            'network edges at the end (partial, DESIGN section 8)']
@@ -35,6 +37,8 @@ ASSUMPTIONS = ['configurations in which agents can die AND a network builds edge
                'are excluded: Infection.infect then reads np.empty memory (Arr.asnew) at removed agents, which makes runs allocation-dependent',
                'configurations that read the process-global NumPy generator (C01 findings: Births, RandomNet with odd n_contacts, NCD, '
                'non-leaky sir_vaccine) are excluded: twins of such sims differ for a reason attributed to C01',
+               'zoo entries of that kind (Births, NCD: births-own-dt, births-deaths, disk-births-deaths, pop-scale-fraction, own-people, ncd) '
+               'are NOT skipped: their twin is continued with numpy.random restored to its state at the fork (search) / they get no twin (correspond)',
                'sim.run_one_step() with a falsy sim.now (numeric start 0) runs to the end of the plan: modelled as the code does it']
 
 MODES = ['none', 'deepcopy', 'pickle', 'saveload']
